@@ -30,6 +30,15 @@ DOMAINS = {
     'max_seq_len': [2, 1000],
     'sort_dict_keys': [True, False],
 }
+# wider domains, sampled on top of the 3^6 core product (falsy and boundary values of every setting)
+WIDE = {
+    'indent': [1, 2, 4, 8],
+    'width': [1, 10, 30, 79, 200],
+    'depth': [None, 0, 1, 2, 3, 50],
+    'ribbon_width': [1, 5, 71, 300],
+    'max_seq_len': [1, 2, 3, 1000, None],
+    'sort_dict_keys': [True, False, 0, 1],
+}
 KEYS = ['indent', 'width', 'depth', 'ribbon_width', 'max_seq_len', 'sort_dict_keys']
 SETTABLE = ['max_seq_len', 'width', 'ribbon_width', 'depth', 'sort_dict_keys']
 UNSET = '<unset>'
@@ -89,7 +98,14 @@ def run_history(arg):
         except Exception as e:
             bad('set-default-config-raised', repr(e), {'history': history[:step + 1]})
             return obs, viol, False
-        model.update(upd)
+        model.update({k: v for k, v in upd.items() if k != 'style'})
+        if 'style' in upd:
+            from prettyprinter import color as _c
+            want_style = _c.default_light_style if upd['style'] == 'light' else _c.default_dark_style
+            if _c.default_style is not want_style:
+                bad('style-not-set', 'set_default_config(style=%r) left color.default_style at %r' % (upd['style'], _c.default_style), {'history': history[:step + 1]})
+            else:
+                obs['default style switches verified'] += 1
         got = dict(pp.get_default_config())
         if got != model:
             bad('defaults-state', 'after %r get_default_config() reports %r, the model %r' % (upd, got, model), {'history': history[:step + 1]})
@@ -189,8 +205,25 @@ def gen_history(rng):
     h = []
     for _ in range(rng.choice([0, 1, 1, 2, 3, 5])):
         keys = rng.sample(SETTABLE, rng.randint(1, 3))
-        h.append({k: rng.choice(DOMAINS[k]) for k in keys})
+        dom = WIDE if rng.random() < 0.4 else DOMAINS
+        step = {k: rng.choice(dom[k]) for k in keys}
+        if rng.random() < 0.15:
+            step['style'] = rng.choice(['light', 'dark'])
+        h.append(step)
+        if rng.random() < 0.15 and h:
+            h.append(dict(h[-1]))          # the same call again: setting a value equal to the current one
     return h
+
+
+def wide_combos(rng, n):
+    out = []
+    for _ in range(n):
+        ex = {}
+        for k in KEYS:
+            if rng.random() < 0.5:
+                ex[k] = rng.choice(WIDE[k])
+        out.append(ex)
+    return out
 
 
 def all_combos():
@@ -209,7 +242,7 @@ def run_shard(sh):
             continue
         rng = V.rng_for('c18', sh.seed, i)
         history = [] if i < 2 else gen_history(rng)
-        combos = rng.sample(combos_all, 100) if quick else combos_all
+        combos = (rng.sample(combos_all, 80) if quick else combos_all) + wide_combos(rng, 40 if quick else 400)
         ends = ['\n', '', 'X'] if not quick else [rng.choice(['\n', '', 'X'])]
         status, res = fork_call(run_history, (history, combos, ends), timeout=1500)
         if status != 'ok':
